@@ -3,7 +3,7 @@
    exact outcome, so a group can only be borderline when a decision is inside the window.
    Over Z/Q/lists; closed under the global context. *)
 From Coq Require Import Qround Lqa.
-From MM Require Import Base.Num Model.Ticks Proofs.Ticks Proofs.TicksLinear Check.C17 Proofs.CheckBase Proofs.CheckC17Base Proofs.CheckC17Lin.
+From MM Require Import Base.Num Model.Ticks Proofs.Ticks Proofs.TicksLinear Proofs.TicksNice Check.C17 Proofs.CheckBase Proofs.CheckC17Base Proofs.CheckC17Lin.
 Local Open Scope Q_scope.
 
 Lemma floor_adm_window q : near_int q = false -> floor_adm q = [qfl q].
@@ -70,3 +70,97 @@ Proof.
     destruct (lin_amb_level base eb mn mx false (lv_level lv)) eqn:W; [reflexivity|].
     rewrite (lin_level_adm_window _ _ _ _ _ _ W HA1) in E. discriminate.
 Qed.
+
+(* ---------- groups 10 and 30/37: Ticks (with minor ticks recorded) and Nice ---------- *)
+Lemma lin_search_eq o base eb mn mx ro : lin_ebase base = Some eb ->
+  lin_search o base eb mn mx ro = find_level o (lin_count base eb mn mx ro) 0.
+Proof.
+  intro He. unfold lin_search. apply TicksCheck.find_level_ext. intro l. apply TicksCheck.lin_count_capped_eq.
+  now destruct (lin_ebase_ge base eb He).
+Qed.
+Lemma zrange_head c n : (0 < n)%nat -> In c (zrange c n).
+Proof.
+  intro H. unfold zrange. apply in_map_iff. exists 0%nat. split; [cbn; lia|]. apply in_seq. lia.
+Qed.
+(* "no level fits, admissibly" is impossible when the search found a level and no decision is in the window *)
+Lemma lin_none_adm_window o base eb mn mx ro lo hi r cnt :
+  (forall l, lin_cnt_max base eb mn mx ro l = cnt l) -> level_bounds o = Some (lo, hi) -> nonincreasing cnt lo hi ->
+  r = find_level o cnt 0 -> lin_none_adm o base eb mn mx ro hi r = false.
+Proof.
+  intros W Hb Mono ->. unfold lin_none_adm. destruct (find_level o cnt 0) as [c| |] eqn:F; try reflexivity.
+  destruct (find_level_lowest o cnt 0 lo hi c Hb Mono F) as (B & Fit & _).
+  apply Bool.andb_false_iff. right. apply Bool.not_true_is_false. intro A.
+  assert (P : (0 < Z.to_nat (hi - c + 1))%nat) by lia.
+  rewrite forallb_forall in A. specialize (A c (zrange_head c _ P)). apply Z.ltb_lt in A. rewrite W in A. lia.
+Qed.
+
+Section Window.
+Variables (base eb : Z) (o : tickopts) (tolv : Q -> Q).
+Hypothesis He : lin_ebase base = Some eb.
+
+(* Ticks(o) with the minor ticks recorded: if no floor/ceil decision of any level lies inside the window,
+   an observation that passes the admissible comparison passes the exact one *)
+Theorem lin_ticks_adm_window a b major mi : a < b ->
+  (forall l, lin_amb_level base eb a b false l = false) ->
+  lin_ticks_adm o base eb a b tolv (lin_search o base eb a b false) major (Some mi) = true ->
+  exists l, lin_search o base eb a b false = FL_ok l /\ (1 <= o_max o)%Z /\
+    close_list tolv (lin_ticks_at base eb a b false l) major = true /\
+    close_list tolv (lin_ticks_at base eb a b false (l - 1)) mi = true.
+Proof.
+  intros Lt W H. assert (Ho : a <= b) by lra. unfold lin_ticks_adm in H.
+  destruct (level_bounds o) as [[lo hi]|] eqn:Hb; [|discriminate].
+  apply andb_prop in H. destruct H as [Hm H]. apply Z.leb_le in Hm.
+  pose proof (lin_count_nonincreasing base eb a b lo hi He Ho) as Mono.
+  rewrite (lin_search_eq o base eb a b false He) in *.
+  apply Bool.orb_true_iff in H. destruct H as [H|H].
+  - apply existsb_exists in H. destruct H as (L & _ & H).
+    apply andb_prop in H. destruct H as [H Hmi]. apply andb_prop in H. destruct H as [H Hma].
+    apply andb_prop in H. destruct H as [H Hlen]. apply andb_prop in H. destruct H as [HL1 HL2].
+    apply Z.leb_le in HL1, HL2, Hlen.
+    rewrite (lin_at_adm_window _ _ _ _ _ _ _ _ (W L)) in Hma. cbn [andb] in Hma.
+    apply andb_prop in Hmi. destruct Hmi as [Hlow Hmi].
+    rewrite (lin_at_adm_window _ _ _ _ _ _ _ _ (W (L - 1)%Z)) in Hmi. cbn [andb] in Hmi.
+    pose proof (obs_close_length _ _ _ (close_list_sound _ _ _ Hma)) as Lma.
+    pose proof (obs_close_length _ _ _ (close_list_sound _ _ _ Hmi)) as Lmi.
+    exists L. split; [|auto].
+    apply (find_level_is_lowest o _ 0 lo hi L Hb Mono Hm (conj HL1 HL2)).
+    + rewrite (lin_count_is_length base eb a b He Ho), <- Lma. exact Hlen.
+    + intros l' Hl'. apply Bool.orb_true_iff in Hlow. destruct Hlow as [E|E]; [apply Z.eqb_eq in E; lia|].
+      apply Z.ltb_lt in E. rewrite Lmi, <- (lin_count_is_length base eb a b He Ho) in E.
+      assert ((lin_count base eb a b false (L - 1) <= lin_count base eb a b false l')%Z) by (apply Mono; lia). lia.
+  - apply andb_prop in H. destruct H as [_ H].
+    rewrite (lin_none_adm_window o base eb a b false lo hi _ (lin_count base eb a b false)) in H; [discriminate | | exact Hb | exact Mono | reflexivity].
+    intro l. apply lin_cnt_max_window, W.
+Qed.
+
+(* Nice(o): the same for the rounded-out decisions *)
+Theorem lin_nice_adm_window smn smx ao bo : smn < smx ->
+  (forall l, lin_amb_level base eb smn smx true l = false) ->
+  lin_nice_adm o base eb smn smx tolv (lin_search o base eb smn smx true) ao bo = true ->
+  let xy := lin_nice_from base eb smn smx (lin_search o base eb smn smx true) in
+  within (tolv (fst xy)) (fst xy) ao && within (tolv (snd xy)) (snd xy) bo = true.
+Proof.
+  intros Lt W H. unfold lin_nice_adm in H.
+  destruct (level_bounds o) as [[lo hi]|] eqn:Hb; [|discriminate].
+  apply andb_prop in H. destruct H as [Hm H]. apply Z.leb_le in Hm.
+  pose proof (lin_count_out_nonincreasing base eb He smn smx lo hi Lt) as Mono.
+  rewrite (lin_search_eq o base eb smn smx true He) in *.
+  apply Bool.orb_true_iff in H. destruct H as [H|H].
+  - apply existsb_exists in H. destruct H as (L & _ & H).
+    apply andb_prop in H. destruct H as [H Hex]. apply andb_prop in H. destruct H as [H Hlow].
+    apply andb_prop in H. destruct H as [HL1 HL2]. apply Z.leb_le in HL1, HL2.
+    rewrite (first_last_adm_window _ _ _ _ _ _ (W L)) in Hex.
+    destruct (lin_first_last smn smx (lin_spacing base eb L) true) as [f la] eqn:Efl. cbn [fst snd existsb] in Hex.
+    rewrite !Bool.orb_false_r in Hex. apply andb_prop in Hex. destruct Hex as [Hcnt Hw]. apply Z.leb_le in Hcnt.
+    assert (F : find_level o (lin_count base eb smn smx true) 0 = FL_ok L).
+    { apply (find_level_is_lowest o _ 0 lo hi L Hb Mono Hm (conj HL1 HL2)).
+      - unfold lin_count. rewrite Efl. exact Hcnt.
+      - intros l' Hl'. apply Bool.orb_true_iff in Hlow. destruct Hlow as [E|E]; [apply Z.eqb_eq in E; lia|].
+        apply Z.ltb_lt in E. rewrite (lin_cnt_max_window _ _ _ _ _ _ (W (L - 1)%Z)) in E.
+        assert ((lin_count base eb smn smx true (L - 1) <= lin_count base eb smn smx true l')%Z) by (apply Mono; lia). lia. }
+    rewrite F. unfold lin_nice_from. rewrite Efl. cbn [fst snd]. exact Hw.
+  - apply andb_prop in H. destruct H as [_ H].
+    rewrite (lin_none_adm_window o base eb smn smx true lo hi _ (lin_count base eb smn smx true)) in H; [discriminate | | exact Hb | exact Mono | reflexivity].
+    intro l. apply lin_cnt_max_window, W.
+Qed.
+End Window.
